@@ -88,8 +88,9 @@ def zones(ctx, shard, nshards):
     pick = random.Random(ctx.sub_seed("c13files")).sample(files, 40 if not ctx.thorough else 400)
     pick += [p for p in files if p.endswith(("Asia/Gaza", "Asia/Hebron", "America/New_York"))]
     pick = sorted(set(pick))[shard::nshards]
-    d = os.path.join(ctx.build.root, "tmp-c13-%d" % shard)
-    os.makedirs(d, exist_ok=True)
+    import tempfile
+    # (a directory of its own: two runs of this check may share the build)
+    d = tempfile.mkdtemp(prefix="tmp-c13-%d-" % shard, dir=ctx.build.root)
     try:
         zs = []
         for p in pick:
